@@ -229,6 +229,10 @@ func (c19) Gen(r *sim.Rng, tier string) *scn.Scn {
 		s.Objects = append(s.Objects, scn.Object{Type: "ab", Seed: r.U64()})
 		s.P["ab_bias"] = 1
 	}
+	if s.P["ab_bias"] == 0 && s.P["checkinit_bias"] == 0 && r.Chance(1, 5) {
+		// registration and lookup on the global registries only, lookups aimed at what another client is about to register
+		s.P["greg_bias"] = 1
+	}
 	s.P["reverse"] = int64(r.Intn(2))
 	for c := 0; c < nc; c++ {
 		var ops []scn.Op
@@ -244,6 +248,9 @@ func (c19) Gen(r *sim.Rng, tier string) *scn.Scn {
 			}
 			if s.P["ab_bias"] == 1 && r.Chance(1, 2) {
 				op.Op = []string{"ab-desc", "ab-roundtrip"}[r.Intn(2)]
+			}
+			if s.P["greg_bias"] == 1 {
+				op.Op = []string{"greg-register", "greg-register", "greg-find", "greg-find", "greg-find", "greg-range"}[r.Intn(6)]
 			}
 			ops = append(ops, op)
 		}
@@ -822,6 +829,7 @@ func (c19) Run(s *scn.Scn, x *sim.Exec) {
 		env.regSets[i%nc] = append(env.regSets[i%nc], f)
 	}
 	regNext := make([]int, nc)
+	regExts := make([][]protoreflect.ExtensionDescriptor, nc)
 	ptrs := make([][]ptrRec, nc)
 	edProto := c19EditionsProto()
 
@@ -938,6 +946,22 @@ func (c19) Run(s *scn.Scn, x *sim.Exec) {
 					return sim.OpResult{Bad: "I2:greg-register: RegisterMessage failed: " + err.Error()}
 				}
 			}
+			for i := 0; i < fd.Extensions().Len() && i < 3; i++ {
+				xd := fd.Extensions().Get(i)
+				if xd.ContainingMessage().IsPlaceholder() {
+					continue
+				}
+				if err := protoregistry.GlobalTypes.RegisterExtension(dynamicpb.NewExtensionType(xd)); err != nil {
+					return sim.OpResult{Bad: "I2:greg-register: RegisterExtension failed: " + err.Error()}
+				}
+				regExts[client] = append(regExts[client], xd)
+				if xt, err := protoregistry.GlobalTypes.FindExtensionByNumber(xd.ContainingMessage().FullName(), xd.Number()); err != nil || xt.TypeDescriptor().Descriptor() != xd {
+					return sim.OpResult{Bad: fmt.Sprintf("I2:greg-register: extension %s not found by number right after its registration (%v)", xd.FullName(), err)}
+				}
+				if _, err := protoregistry.GlobalTypes.FindExtensionByName(xd.FullName()); err != nil {
+					return sim.OpResult{Bad: fmt.Sprintf("I2:greg-register: extension %s not found by name right after its registration (%v)", xd.FullName(), err)}
+				}
+			}
 			// what this client registered it must find again
 			if got, err := protoregistry.GlobalFiles.FindFileByPath(fd.Path()); err != nil || got != fd {
 				return sim.OpResult{Bad: fmt.Sprintf("I2:greg-register: file %s not found after its registration (%v)", fd.Path(), err)}
@@ -945,6 +969,14 @@ func (c19) Run(s *scn.Scn, x *sim.Exec) {
 			return sim.OpResult{Relaxed: true}
 		case "greg-find":
 			fd := regFiles[int(op.N)%len(regFiles)]
+			if op.N%2 == 0 && nc > 1 {
+				// the file another client registers next (or has just registered)
+				// (one of the first files of its list: no look at the other client's progress, which is its own state)
+				o := (client + 1 + int(op.M)%(nc-1)) % nc
+				if set := env.regSets[o]; len(set) > 0 {
+					fd = set[int(op.N/2)%min(len(set), 3)]
+				}
+			}
 			got, err := protoregistry.GlobalFiles.FindFileByPath(fd.Path())
 			if err == nil && got != fd {
 				return sim.OpResult{Bad: "I2:greg-find: FindFileByPath returned a different file"}
@@ -963,6 +995,19 @@ func (c19) Run(s *scn.Scn, x *sim.Exec) {
 				}
 				if mt, err3 := protoregistry.GlobalTypes.FindMessageByName(md.FullName()); err3 == nil && mt.Descriptor() != md {
 					return sim.OpResult{Bad: "I2:greg-find: GlobalTypes returned a type for a different descriptor"}
+				}
+			}
+			if fd.Extensions().Len() > 0 {
+				// by number, the way the wire decoder asks: found (then the right one) or not yet there
+				xd := fd.Extensions().Get(int(op.M) % fd.Extensions().Len())
+				if !xd.ContainingMessage().IsPlaceholder() {
+					xt, err4 := protoregistry.GlobalTypes.FindExtensionByNumber(xd.ContainingMessage().FullName(), xd.Number())
+					if err4 == nil && xt.TypeDescriptor().Descriptor() != xd {
+						return sim.OpResult{Bad: "I2:greg-find: FindExtensionByNumber returned a type for a different descriptor"}
+					}
+					if err4 != nil && err4 != protoregistry.NotFound {
+						return sim.OpResult{Bad: "I2:greg-find: unexpected error " + err4.Error()}
+					}
 				}
 			}
 			return sim.OpResult{Relaxed: true}
@@ -988,8 +1033,21 @@ func (c19) Run(s *scn.Scn, x *sim.Exec) {
 		}
 		return sim.OpResult{}
 	})
+	// at quiescence, still on the swapped-in global registries: every extension a client registered is found
+	var lost string
+	for ci := range regExts {
+		for _, xd := range regExts[ci] {
+			if xt, err := protoregistry.GlobalTypes.FindExtensionByNumber(xd.ContainingMessage().FullName(), xd.Number()); (err != nil || xt.TypeDescriptor().Descriptor() != xd) && lost == "" {
+				lost = fmt.Sprintf("extension %s (number %d of %s), registered successfully by client %d, is not found by number after all clients finished: %v", xd.FullName(), xd.Number(), xd.ContainingMessage().FullName(), ci, err)
+			}
+		}
+	}
 	protoregistry.GlobalFiles, protoregistry.GlobalTypes = savedF, savedT
 	if x.Failed() {
+		return
+	}
+	if lost != "" {
+		x.Fail("I2:registered-extension-lost", "%s", lost)
 		return
 	}
 	x.CompareWithDry(0, logs)
